@@ -96,15 +96,23 @@ theorem validate_rejects_explicitly (c : Cfg) (e : Err) (h : validate c = .error
 /-- **Sharded declarations are consistent**: whenever `sharded_init_fn` succeeds,
 `sharded_init_shape_and_dtype_fn` succeeds and declares exactly the initial state's tree (structure,
 static fields, every leaf's shape and dtype), and `sharded_init_partition_spec_fn` has the same tree
-structure. Hypotheses: statistic sizes are positive (true for dims ≥ 1); one partition-spec entry per
-parameter dimension. -/
+structure — for parameter dimensions ≥ 1 and one partition spec per parameter, of ANY length
+(`P()`, `P(None)`, one entry per dimension). -/
 theorem sharded_decl_consistent (c : Cfg) (ps : List (List Nat)) (pspecs : List (List String))
     (statSpec : List String) (L : ShardedLayout)
-    (hpos : ∀ d ∈ ps.flatMap (statDims c), 0 < d) (hspec : specsFit ps pspecs)
+    (hdims : dimsPos ps) (hspec : specsFit ps pspecs)
     (h : shardedInit c ps = .ok L) :
     shapeDtypeDecl c ps = .ok (shardedSig L) ∧
     skeleton (pspecDecl c ps pspecs statSpec) = skeleton (shardedSig L) :=
-  ⟨shardedInit_decl c ps L hpos h, pspecDecl_skeleton c ps pspecs statSpec L hspec h⟩
+  ⟨shardedInit_decl c ps L (allStatDims_pos c ps hdims) h, pspecDecl_skeleton c ps pspecs statSpec L hspec h⟩
+
+/-- sharded mode without a device count is rejected by the constructor (D23) -/
+theorem sharded_requires_devices (c : Cfg) (hs : c.shard = true) (hn : c.ndev < 1) :
+    validate c = .error (.reject .construct .valueError) := by
+  unfold validate
+  simp only [hs, hn, Bool.true_and, decide_true]
+  repeat' split
+  all_goals first | rfl | (exfalso; simp_all)
 
 /-- sharded `init` never fails internally -/
 theorem sharded_init_no_internal_error (c : Cfg) (ps : List (List Nat)) (e : Err)
@@ -119,16 +127,15 @@ theorem sharded_init_no_internal_error (c : Cfg) (ps : List (List Nat)) (e : Err
     · cases h; rfl
     · cases h
 
-/-- **Sharded layout is a fixed point of update** (`sharded_update_fn`): explanatory rejection (LOBPCG
-size check) or exactly the initial sharded layout — global stacked statistics / preconditioners keep
-their padded shapes, local entries their layout. `batch_axis_name` is a pmap-mode option and is assumed
-unset in sharded mode. -/
+/-- **Sharded layout is a fixed point of update** (`sharded_update_fn`, `shard_optimizer_states=True`,
+with or without `batch_axis_name`): explanatory rejection (LOBPCG size check) or exactly the initial
+sharded layout — global stacked statistics / preconditioners keep their padded shapes, local entries
+their layout. -/
 theorem sharded_layout_fixpoint (c : Cfg) (ps : List (List Nat)) (L : ShardedLayout)
-    (hb : c.batchAxis = false) (hpos : ∀ d ∈ ps.flatMap (statDims c), 0 < d)
-    (h : shardedInit c ps = .ok L) :
+    (hs : c.shard = true) (hdims : dimsPos ps) (h : shardedInit c ps = .ok L) :
     shardedStep c ps L = .ok L ∨ ∃ cls, shardedStep c ps L = .error (.reject .update cls) := by
-  have hq : c.quant2 = false := by simp [Cfg.quant2, hb]
-  rw [shardedStep_init c ps L hq hpos h]
+  have hq : c.quant2 = false := by simp [Cfg.quant2, hs]
+  rw [shardedStep_init c ps L hq (allStatDims_pos c ps hdims) h]
   cases hr : rootReject c (globalDims c ps).2 .update with
   | none => left; rfl
   | some e =>
@@ -139,6 +146,14 @@ theorem sharded_layout_fixpoint (c : Cfg) (ps : List (List Nat)) (L : ShardedLay
     · split at hr
       · cases hr; exact ⟨_, rfl⟩
       · cases hr
+
+/-- ... hence after any number of sharded updates (induction over the history): either the first
+update is rejected explicitly, or every later state has the initial layout -/
+theorem sharded_layout_fixpoint_steps (c : Cfg) (ps : List (List Nat)) (L : ShardedLayout) (k : Nat)
+    (hs : c.shard = true) (hdims : dimsPos ps) (h : shardedInit c ps = .ok L)
+    (hacc : rootReject c (globalDims c ps).2 .update = none) :
+    shardedSteps c ps k L = .ok L :=
+  shardedSteps_init c ps L (by simp [Cfg.quant2, hs]) (allStatDims_pos c ps hdims) h hacc k
 
 /-- SM3: rank-0 parameters are rejected explicitly, otherwise the layout is a fixed point of update -/
 theorem sm3_layout_fixpoint (ps : List (List Nat)) :
@@ -178,9 +193,18 @@ example : validate exCfg = .ok () ∧ stepRejects exCfg [[6, 5], [7], []] = none
 example : validate exCfg = .ok () ∧
     stepRejects exCfg [[2, 2]] = some (.reject .update .assertionError) := ⟨rfl, by decide⟩
 
-example : specsFit [[3, 4], [5]] [["", ""], [""]] := by simp [specsFit]
+example : specsFit [[3, 4], [5]] [[], [""]] := by simp [specsFit]
 
-example : (∀ d ∈ [[6, 5], [7]].flatMap (statDims { exCfg with shard := true }), 0 < d) := by decide
+example : dimsPos [[6, 5], [7], []] := by
+  intro s hs d hd
+  simp only [List.mem_cons, List.mem_nil_iff, or_false] at hs
+  rcases hs with rfl | rfl | rfl <;> simp at hd <;> omega
+
+/-- a sharded configuration with `batch_axis_name` and quantized momenta that is accepted (D22) -/
+def exSharded : Cfg :=
+  { exCfg with shard := true, batchAxis := true, fd := false, avgGrad := false, fdMetrics := false, compRank := 0 }
+
+example : ∃ L, shardedInit exSharded [[6, 5], [7]] = .ok L := ⟨_, rfl⟩
 
 /-! ### negative witnesses (regression documentation of repaired defects) -/
 
